@@ -4,7 +4,7 @@
 ID=$1; SRC=${2:-/tmp/seed_$ID/_out}; DEST=/verif/seeded/$ID; WT=/tmp/sv_$ID
 mkdir -p $DEST; cp $SRC/patch.diff $SRC/demo.py $DEST/ 2>/dev/null; cp $SRC/notes.md $DEST/notes.md 2>/dev/null
 git -C /repo worktree remove --force $WT 2>/dev/null
-git -C /repo worktree add -q $WT HEAD || exit 2
+git -C /repo worktree add -q $WT ${BASE:-HEAD} || exit 2
 cd $WT
 PYTHONPATH=$WT timeout 900 /venv/bin/python $DEST/demo.py > /tmp/sv_${ID}_demo_clean.log 2>&1; d0=$?
 git apply $DEST/patch.diff; ap=$?
